@@ -189,6 +189,11 @@ type ZoneParser struct {
 	includeAllowed     bool
 	generateDisallowed bool
 
+	// generateLine is set in the parser of the lines that a $GENERATE directive
+	// produces: the line of that directive, which the errors of this parser carry
+	// (a line number within the generated text is no position in the file).
+	generateLine int
+
 	// again is set by subNext when a sub-parser has ended without a record.
 	again bool
 }
@@ -271,6 +276,10 @@ func (zp *ZoneParser) Err() error {
 }
 
 func (zp *ZoneParser) setParseError(err string, l lex) (RR, bool) {
+	if zp.generateLine != 0 {
+		l.line = zp.generateLine
+	}
+
 	zp.parseErr = &ParseError{file: zp.file, err: err, lex: l}
 	return nil, false
 }
